@@ -36,7 +36,12 @@ def main():
         as_example = '#[test]' not in open(demo).read()
         if as_example:
             # the demo is a program (fn main; exit status != 0 or panic = property violated)
-            ddir, dcmd = os.path.join(wt, 'examples'), 'cargo run -q --offline --example zz_demo_mutant 2>&1 | tail -25; echo EXIT=${PIPESTATUS[0]}'
+            feats = meta.get('features') or []
+            if isinstance(feats, str):
+                feats = [f for f in feats.replace(',', ' ').split() if f]
+            fopt = (' --features ' + ','.join(feats)) if feats else ''
+            ropt = ' --release' if meta.get('release') else ''
+            ddir, dcmd = os.path.join(wt, 'examples'), 'cargo run -q --offline%s%s --example zz_demo_mutant 2>&1 | tail -25; echo EXIT=${PIPESTATUS[0]}' % (fopt, ropt)
         else:
             ddir, dcmd = os.path.join(wt, 'tests'), 'cargo test --offline --test zz_demo_mutant 2>&1 | tail -25'
         os.makedirs(ddir, exist_ok=True)
